@@ -212,10 +212,13 @@ def generate(ctx, core, pref):
             cfg = core.cfg_with("ComposeAccessGen.cfg", ["CONSTRAINT EmitLast"], consts)
             ctx.require_ok(ctx.tlc("ComposeAccessGen", cfg_text=cfg, constants=consts, on_emit=out.append, timeout=1800))
         return out
-    # thorough: depth 4 for the pair with a two-name kind (about 190 000 histories; depth 4 for both pairs plus depth 5 for one kind
-    # took over an hour of replay on a loaded machine and found nothing the shallower tiers had not)
-    cases += gen(["images", "info"], 3 if ctx.quick else 4)
+    # thorough: depth 3 for both pairs and depth 4 for the two-name kind alone (about 33 000 more histories).  Depth 4 for a pair
+    # is about 190 000 histories and depth 5 for one kind 300 000: replaying those took 20 - 80 minutes on this machine and found
+    # nothing the shallower tiers had not, so the thorough tier spends its time on random deep histories and recorded executions.
+    cases += gen(["images", "info"], 3)
     cases += gen(["rpms", "modules"], 3)
+    if not ctx.quick:
+        cases += gen(["images"], 4)
     cases += gen(["info", "images", "rpms", "modules"], 12, simulate=150 if ctx.quick else 4000)
     seen, uniq = set(), []
     for c in cases:
